@@ -23,6 +23,17 @@ pub struct Expect {
     pub writes: Vec<(String, Meaning)>,
     /// every path this invocation may legitimately create or change
     pub may_touch: Vec<String>,
+    /// `-o <existing directory>`: the help text says out.<ext> goes INTO that directory, the tool
+    /// as it stands puts it into the current directory; both are accepted, but never an overwrite
+    /// the user declined, never wrong content, never another path
+    pub either: Option<Either>,
+}
+
+#[derive(Clone, Debug)]
+pub struct Either {
+    pub cands: Vec<String>,
+    pub meaning: Meaning,
+    pub yes: bool,
 }
 
 pub enum Pred {
@@ -55,7 +66,7 @@ fn is_dir(s: &Snap, p: &str) -> bool {
 }
 
 fn fail() -> Pred {
-    Pred::Judged(Expect { exit: 1, run_ok: None, err_text: None, writes: vec![], may_touch: vec![] })
+    Pred::Judged(Expect { exit: 1, run_ok: None, err_text: None, writes: vec![], may_touch: vec![], either: None })
 }
 
 /// files directly inside `dir` with one of the extensions
@@ -147,6 +158,8 @@ macro_rules! get {
 
 /// outcome of writing to an explicit target (`write_to_file`) or to a default name in cwd (`dir_create_file`)
 enum Target {
+    /// the path names an existing directory
+    Dir(Vec<String>),
     Write(String),
     Declined(String),
     Fail(Vec<String>),
@@ -170,7 +183,15 @@ fn target(snap: &Snap, cwd: &str, given: &Option<String>, default_name: &str, ex
             Target::Declined(path)
         }
     } else if snap.contains_key(&path) {
-        Target::Unknown(format!("target {path} is a directory"))
+        if !explicit {
+            return Target::Unknown(format!("default target {path} is a directory"));
+        }
+        // uniform answers only: which of the two candidates the tool asks about is not predicted
+        let uniform = answers.iter().all(|a| a.starts_with('y')) || answers.iter().all(|a| a.starts_with('n'));
+        if !uniform || answers.is_empty() {
+            return Target::Unknown(format!("target {path} is a directory and the answers are mixed"));
+        }
+        Target::Dir(vec![format!("{path}/out.{ext}"), cli::resolve(cwd, &format!("out.{ext}"))])
     } else {
         if explicit && ext_of(&path) != Some(ext) {
             return Target::Fail(vec![]);
@@ -230,8 +251,14 @@ pub fn predict(snap: &Snap, meaning: &BTreeMap<String, Meaning>, inv: &Inv, answ
                     let mut writes = vec![];
                     let mut may = vec![];
                     let mut exit = 0;
+                    let mut either = None;
                     if output.is_some() {
                         match target(snap, &inv.cwd, output, "", "wsca", answers, &mut ai) {
+                            Target::Dir(cands) => {
+                                let content = res.join("\n");
+                                may.extend(cands.iter().cloned());
+                                either = Some(Either { cands, meaning: Meaning::Words(cli::read_wsca(&content)), yes: answers.iter().all(|a| a.starts_with('y')) });
+                            }
                             Target::Write(p) => {
                                 let content = res.join("\n");
                                 may.push(p.clone());
@@ -242,9 +269,9 @@ pub fn predict(snap: &Snap, meaning: &BTreeMap<String, Meaning>, inv: &Inv, answ
                             Target::Unknown(s) => return Pred::Unjudgeable(s),
                         }
                     }
-                    Pred::Judged(Expect { exit, run_ok: Some((w, res, cmpw)), err_text: None, writes, may_touch: may })
+                    Pred::Judged(Expect { exit, run_ok: Some((w, res, cmpw)), err_text: None, writes, may_touch: may, either })
                 }
-                Ans::Err(text) => Pred::Judged(Expect { exit: 0, run_ok: None, err_text: Some(format!("{text}\n")), writes: vec![], may_touch: vec![] }),
+                Ans::Err(text) => Pred::Judged(Expect { exit: 0, run_ok: None, err_text: Some(format!("{text}\n")), writes: vec![], may_touch: vec![], either: None }),
                 other => Pred::Unjudgeable(format!("library answer is {other:?}")),
             }
         }
@@ -262,8 +289,9 @@ pub fn predict(snap: &Snap, meaning: &BTreeMap<String, Meaning>, inv: &Inv, answ
             };
             let m = Model { into, from, words: w, rules: g };
             match target(snap, &inv.cwd, output, "out.json", "json", answers, &mut ai) {
-                Target::Write(p) => Pred::Judged(Expect { exit: 0, run_ok: None, err_text: None, may_touch: vec![p.clone()], writes: vec![(p, Meaning::Json(m))] }),
-                Target::Declined(p) => Pred::Judged(Expect { exit: 0, run_ok: None, err_text: None, writes: vec![], may_touch: vec![p] }),
+                Target::Write(p) => Pred::Judged(Expect { exit: 0, run_ok: None, err_text: None, may_touch: vec![p.clone()], writes: vec![(p, Meaning::Json(m))], either: None }),
+                Target::Dir(cands) => Pred::Judged(Expect { exit: 0, run_ok: None, err_text: None, may_touch: cands.clone(), writes: vec![], either: Some(Either { cands, meaning: Meaning::Json(m), yes: answers.iter().all(|a| a.starts_with('y')) }) }),
+                Target::Declined(p) => Pred::Judged(Expect { exit: 0, run_ok: None, err_text: None, writes: vec![], may_touch: vec![p], either: None }),
                 Target::Fail(_) => fail(),
                 Target::Unknown(s) => Pred::Unjudgeable(s),
             }
@@ -292,10 +320,11 @@ pub fn predict(snap: &Snap, meaning: &BTreeMap<String, Meaning>, inv: &Inv, answ
                         exit = 1;
                         break;
                     }
+                    Target::Dir(_) => return Pred::Unjudgeable("directory target of conv json".into()),
                     Target::Unknown(s) => return Pred::Unjudgeable(s),
                 }
             }
-            Pred::Judged(Expect { exit, run_ok: None, err_text: None, writes, may_touch: may })
+            Pred::Judged(Expect { exit, run_ok: None, err_text: None, writes, may_touch: may, either: None })
         }
     }
 }
@@ -440,11 +469,38 @@ fn check_strict(e: &Expect, o: &InvOut, before: &Snap, after: &Snap, inv_i: usiz
             _ => return Some(Fail { clause: "missing-output", inv: inv_i, detail: format!("{p} was not written; stdout {:?} stderr {:?}", tail(&o.out.stdout), tail(&o.out.stderr)) }),
         }
     }
+    if let Some(ei) = &e.either {
+        let mut any_right = false;
+        let mut any_existed = false;
+        for c in &ei.cands {
+            let b = before.get(c);
+            let a = after.get(c);
+            if b.is_some() {
+                any_existed = true;
+            }
+            let right = matches!(a, Some(Some(bytes)) if content_matches(bytes, &ei.meaning).is_ok());
+            any_right |= right;
+            if a != b {
+                if b.is_some() && !ei.yes {
+                    return Some(Fail { clause: "overwrite-declined-but-changed", inv: inv_i, detail: format!("{c} existed, every overwrite question was answered no, and it changed") });
+                }
+                if !right {
+                    return Some(Fail { clause: "output-file", inv: inv_i, detail: format!("{c} was written but does not hold the result") });
+                }
+            }
+        }
+        if !any_right && (ei.yes || !any_existed) {
+            return Some(Fail { clause: "missing-output", inv: inv_i, detail: format!("none of {:?} holds the result; stdout {:?}", ei.cands, tail(&o.out.stdout)) });
+        }
+    }
     conservation(e, before, after, inv_i)
 }
 
 fn conservation(e: &Expect, before: &Snap, after: &Snap, inv_i: usize) -> Option<Fail> {
-    let written: BTreeSet<&String> = e.writes.iter().map(|(p, _)| p).collect();
+    let mut written: BTreeSet<&String> = e.writes.iter().map(|(p, _)| p).collect();
+    if let Some(ei) = &e.either {
+        written.extend(ei.cands.iter());
+    }
     for (p, c) in before {
         if written.contains(p) {
             continue;
@@ -508,7 +564,11 @@ fn check_relaxed(e: &Expect, fo: &InvOut, _rec: &InvOut, before: &Snap, rec_afte
         // content; nothing the tool does can make an existing file disappear
         let right = rec_after.get(p);
         let ok = match (now, right) {
-            (Some(Some(n)), Some(Some(r))) => e.writes.iter().any(|(wp, _)| wp == p) && is_prefix(n, r),
+            (Some(Some(n)), Some(Some(r))) => {
+                let written = e.writes.iter().any(|(wp, _)| wp == p)
+                    || e.either.as_ref().map(|ei| ei.cands.contains(p) && (ei.yes || old.is_none())).unwrap_or(false);
+                written && is_prefix(n, r)
+            }
             _ => false,
         };
         if !ok {
@@ -771,8 +831,18 @@ pub fn run_history(root: &str, scn: &mut Scn, oracle: &mut Oracle, st: &mut Stat
                 }
             }
         }
+        if let Some(ei) = &e.either {
+            for c in &ei.cands {
+                if final_after.get(c) != before.get(c) {
+                    meaning.insert(c.clone(), ei.meaning.clone());
+                }
+            }
+        }
         // ---- update what the files mean
         for p in &e.may_touch {
+            if e.either.as_ref().map(|ei| ei.cands.contains(p)).unwrap_or(false) {
+                continue;
+            }
             let now = final_after.get(p);
             if now == before.get(p) {
                 continue; // untouched: keeps its old meaning
